@@ -116,7 +116,7 @@ func H_C18_fetch() {
 		f.Cache = envCache{}
 	}
 	url := rt.AtomString("url")
-	b, err := f.Fetch(context.Background(), url)
+	b, err := f.Fetch(rt.EnvContext{Tag: "caller"}, url)
 
 	rt.Assert((b == nil) != (err == nil), "C18.result.xor.error")
 	rt.Assert(getCalls <= 1 && setCalls <= 1 && (hasCache || getCalls+setCalls == 0), "C18.cache.calls")
